@@ -221,6 +221,75 @@ func init() {
 		code, out := env.serve(b)
 		return okStr(fmtJSAnswer(code, out)), nil
 	}
+	// jshome <known> x<devEUI> x<netID> s<sender> s<receiver> <txid>: HomeNSReq
+	opTable["jshome"] = func(r *tokReader) (string, error) {
+		known, err := r.boolean()
+		if err != nil {
+			return "", err
+		}
+		e, err := r.hex()
+		if err != nil || len(e) != 8 {
+			return "", fmt.Errorf("devEUI")
+		}
+		n, err := r.hex()
+		if err != nil || len(n) != 3 {
+			return "", fmt.Errorf("netID")
+		}
+		s1, err := r.next()
+		if err != nil || !strings.HasPrefix(s1, "s") {
+			return "", fmt.Errorf("sender")
+		}
+		s2, err := r.next()
+		if err != nil || !strings.HasPrefix(s2, "s") {
+			return "", fmt.Errorf("receiver")
+		}
+		tx, err := r.u64()
+		if err != nil {
+			return "", err
+		}
+		var devEUI lw.EUI64
+		copy(devEUI[:], e)
+		var netID lw.NetID
+		copy(netID[:], n)
+		h, herr := joinserver.NewHandler(joinserver.HandlerConfig{
+			GetDeviceKeysByDevEUIFunc: func(lw.EUI64) (joinserver.DeviceKeys, error) { return joinserver.DeviceKeys{}, joinserver.ErrDevEUINotFound },
+			GetHomeNetIDByDevEUIFunc: func(x lw.EUI64) (lw.NetID, error) {
+				if known && x == devEUI {
+					return netID, nil
+				}
+				return lw.NetID{}, joinserver.ErrDevEUINotFound
+			},
+		})
+		if herr != nil {
+			return "", herr
+		}
+		body, _ := json.Marshal(backend.HomeNSReqPayload{BasePayload: backend.BasePayload{ProtocolVersion: backend.ProtocolVersion1_0, SenderID: s1[1:], ReceiverID: s2[1:],
+			TransactionID: uint32(tx), MessageType: backend.HomeNSReq}, DevEUI: devEUI})
+		rec := httptest.NewRecorder()
+		h.ServeHTTP(rec, httptest.NewRequest("POST", "/", bytes.NewReader(body)))
+		var a backend.HomeNSAnsPayload
+		if e := json.Unmarshal(rec.Body.Bytes(), &a); e != nil {
+			return okStr(fmt.Sprintf("%d UNPARSABLE", rec.Code)), nil
+		}
+		return okStr(fmt.Sprintf("%d %s s%s s%s %d %s %s", rec.Code, a.Result.ResultCode, a.SenderID, a.ReceiverID, a.TransactionID, a.MessageType, hx(a.HNetID[:]))), nil
+	}
+	// jsraw x<body>: any request body (malformed JSON, unknown MessageType): the answer is a bare Result
+	opTable["jsraw"] = func(r *tokReader) (string, error) {
+		b, err := r.hex()
+		if err != nil {
+			return "", err
+		}
+		env, e := newJSHandler(nil)
+		if e != nil {
+			return "", e
+		}
+		code, out := env.serve(b)
+		var res backend.Result
+		if e := json.Unmarshal(out, &res); e != nil {
+			return okStr(fmt.Sprintf("%d UNPARSABLE", code)), nil
+		}
+		return okStr(fmt.Sprintf("%d %s", code, res.ResultCode)), nil
+	}
 	opTable["jsconc"] = func(r *tokReader) (string, error) {
 		n, err := r.u64()
 		if err != nil {
